@@ -8,6 +8,7 @@ import Model.Basis
 import Model.Rand
 import Generated.Tables
 import Driver.Util
+import Driver.Opt
 
 open PV PV.Driver
 
@@ -200,6 +201,7 @@ def execToks (t : List String) : Option String :=
   | "cell" :: op :: ts => execCell op ts
   | "site" :: op :: ts => execSite op ts
   | "rng" :: op :: ts => execRng op ts
+  | "opt" :: op :: ts => execOpt op ts
   | "basis" :: "seq" :: ts => execBasisSeq ts
   | "wrap" :: "xy" :: ts => run (do
       let p ← pF; let o ← pF; let x ← pF; let y ← pF
